@@ -501,11 +501,13 @@ impl World {
             let t = self.t.borrow();
             t.bulk_cleanables.get(&map_id).map(|v| v[from as usize..(from + k) as usize].iter().map(|c| c as *const Cleanable).collect()).unwrap_or_default()
         };
+        self.m.borrow_mut().bulk_clean_of = Some(map_id);
         self.lib(LibCall::Other, || {
             for p in &ptrs {
                 unsafe { &**p }.clean();
             }
         });
+        self.m.borrow_mut().bulk_clean_of = None;
         self.sync();
         let mut m = self.m.borrow_mut();
         m.objs[map_id as usize].bulk_cleaned += k;
